@@ -28,12 +28,17 @@ def demo_cmd(meta):
     c = meta["demo_cmd"]
     # drop "cp SEED/demo/x.rs tests/ &&" prefixes: the tool places the files itself
     parts = [p.strip() for p in c.split("&&")]
-    parts = [p for p in parts if not p.startswith("cp ") and not p.startswith("mkdir ")]
-    return " && ".join(parts)
+    parts = [p for p in parts if not p.startswith("cp ") and not p.startswith("mkdir ") and not p.startswith("cd ")]
+    c = " && ".join(parts)
+    c = re.sub(r"CARGO_TARGET_DIR=\S+\s+", "", c)      # the tool sets its own target dir
+    c = re.sub(r"\s{2,}\(.*$", "", c)                  # trailing parenthetical remark
+    return c
 
 def confirm(name, slot):
     d = os.path.join(VERIF, "seeded", name)
     meta = json.load(open(os.path.join(d, "meta.json")))
+    if meta.get("retired"):
+        return {"seed": name, "property": meta.get("property"), "retired": meta["retired"], "confirmed": False}
     wt = os.path.join(ROOT, name)
     env = {"CARGO_TARGET_DIR": os.path.join(ROOT, f"target-{slot}"), "CARGO_NET_OFFLINE": "true",
            "RUST_BACKTRACE": "0"}
@@ -106,14 +111,14 @@ def main():
         finally:
             slots.append(slot)
         json.dump(r, open(os.path.join(VERIF, "seeded", n, "confirmation.json"), "w"), indent=1)
-        print(n, "CONFIRMED" if r.get("confirmed") else "NOT-CONFIRMED " + json.dumps({k: r[k] for k in r if k not in ("seed", "when")})[:700], flush=True)
+        print(n, "CONFIRMED" if r.get("confirmed") else "RETIRED" if r.get("retired") else "NOT-CONFIRMED " + json.dumps({k: r[k] for k in r if k not in ("seed", "when")})[:700], flush=True)
         return r
     with ThreadPoolExecutor(jobs) as ex:
         rs = list(ex.map(work, names))
     for s in range(jobs):
         shutil.rmtree(os.path.join(ROOT, f"target-{s}"), ignore_errors=True)
     sh("git -C /repo worktree prune")
-    bad = [r["seed"] for r in rs if not r.get("confirmed")]
+    bad = [r["seed"] for r in rs if not r.get("confirmed") and not r.get("retired")]
     print(f"confirmed {len(rs) - len(bad)}/{len(rs)}; not confirmed: {bad}")
 
 if __name__ == "__main__":
